@@ -27,8 +27,9 @@ import (
 // prog is a set of packages; files of package main are in "main/"; other packages in "<name>/".
 type prog struct {
 	Name  string            `json:"name"`
-	Files map[string]string `json:"files"` // path relative to GOPATH/src
-	Entry string            `json:"entry"` // "eval" (single main file via Eval) or "dir" (EvalPath on the main directory)
+	Files map[string]string `json:"files"`          // path relative to GOPATH/src
+	Entry string            `json:"entry"`          // "eval" (single main file via Eval) or "dir" (EvalPath on the main directory)
+	Vals  []string          `json:"vals,omitempty"` // package main variables whose final values main shows (model: evaluated in InitOrder)
 }
 
 var imp = emit.NewImporter()
@@ -102,6 +103,8 @@ func model(p prog) (string, error) {
 	}
 	// initialisation: dependency order of packages (imports first, in order of import declarations), each once
 	var log []string
+	env := map[string]int{}
+	var evalErr error
 	done := map[string]bool{}
 	var initPkg func(dir string)
 	initPkg = func(dir string) {
@@ -118,8 +121,18 @@ func model(p prog) (string, error) {
 			}
 		}
 		for _, ini := range infos[dir].InitOrder {
-			// every initialiser logs "<pkg>.<first lhs name>" exactly once by construction
-			log = append(log, "var "+dir+"."+ini.Lhs[0].Name())
+			// every initialiser that calls lg logs "<pkg>.<first lhs name>" exactly once by construction; an initialiser
+			// without a call to lg (a bare identifier, family MV) is silent and only shows through the values
+			if callsLg(ini.Rhs) {
+				log = append(log, "var "+dir+"."+ini.Lhs[0].Name())
+			}
+			if dir == "main" && len(p.Vals) > 0 {
+				v, err := evalInit(ini.Rhs, env)
+				if err != nil {
+					evalErr = err
+				}
+				env[ini.Lhs[0].Name()] = v
+			}
 		}
 		for _, f := range filesOf[dir] {
 			n := 0
@@ -133,7 +146,59 @@ func model(p prog) (string, error) {
 	}
 	initPkg("main")
 	log = append(log, "main")
+	if evalErr != nil {
+		return "", fmt.Errorf("HARNESS: value model: %v", evalErr)
+	}
+	if len(p.Vals) > 0 {
+		l := "vals"
+		for _, n := range p.Vals {
+			l += fmt.Sprint(" ", env[n])
+		}
+		log = append(log, l)
+	}
 	return strings.Join(log, "\n") + "\n", nil
+}
+
+// callsLg reports whether the initialiser expression contains a call to lg.
+func callsLg(e ast.Expr) bool {
+	found := false
+	ast.Inspect(e, func(n ast.Node) bool {
+		if c, ok := n.(*ast.CallExpr); ok {
+			if id, ok := c.Fun.(*ast.Ident); ok && id.Name == "lg" {
+				found = true
+			}
+		}
+		return true
+	})
+	return found
+}
+
+// evalInit evaluates an initialiser of the MV family: identifiers, lg(...) (= 1), integer literals, + and parentheses.
+func evalInit(e ast.Expr, env map[string]int) (int, error) {
+	switch x := e.(type) {
+	case *ast.Ident:
+		return env[x.Name], nil
+	case *ast.BasicLit:
+		var v int
+		_, err := fmt.Sscan(x.Value, &v)
+		return v, err
+	case *ast.ParenExpr:
+		return evalInit(x.X, env)
+	case *ast.CallExpr:
+		if id, ok := x.Fun.(*ast.Ident); ok && id.Name == "lg" {
+			return 1, nil
+		}
+	case *ast.BinaryExpr:
+		if x.Op == token.ADD {
+			a, err := evalInit(x.X, env)
+			if err != nil {
+				return 0, err
+			}
+			b, err := evalInit(x.Y, env)
+			return a + b, err
+		}
+	}
+	return 0, fmt.Errorf("expression outside the value model")
 }
 
 func fileBase(p string) string { return p[strings.LastIndex(p, "/")+1:] }
@@ -353,6 +418,36 @@ func programs(thorough bool) []prog {
 			ps = append(ps, prog{Name: fmt.Sprintf("M %s inits=%d", m.name, inits), Files: map[string]string{"main/a.go": b.String()}, Entry: "eval"})
 		}
 	}
+	// MV: n:n multi-value declarations whose initialisers are (also) bare identifiers of variables declared later, in every
+	// position; a consumer declared first; final values shown by main
+	x := "var x = lg(\"var main.x\")\n\nvar y = lg(\"var main.y\") + 1\n\n"
+	mv := []struct {
+		name, body string
+		vals       []string
+	}{
+		{"bare-first", "var z = lg(\"var main.z\") + a + b\n\nvar a, b = x, lg(\"var main.b\")\n\n" + x, []string{"a", "b", "x", "y", "z"}},
+		{"bare-last", "var z = lg(\"var main.z\") + a + b\n\nvar a, b = lg(\"var main.a\"), x\n\n" + x, []string{"a", "b", "x", "y", "z"}},
+		{"bare-both", "var z = lg(\"var main.z\") + a + b\n\nvar a, b = x, y\n\n" + x, []string{"a", "b", "x", "y", "z"}},
+		{"bare-both-swapped", "var z = lg(\"var main.z\") + a + b\n\nvar a, b = y, x\n\n" + x, []string{"a", "b", "x", "y", "z"}},
+		{"typed", "var z = lg(\"var main.z\") + a + b\n\nvar a, b int = x, lg(\"var main.b\") + y\n\n" + x, []string{"a", "b", "x", "y", "z"}},
+		{"three", "var z = lg(\"var main.z\") + a + b + c\n\nvar a, b, c = x, y, lg(\"var main.c\")\n\n" + x, []string{"a", "b", "c", "x", "y", "z"}},
+		{"three-bare-middle", "var z = lg(\"var main.z\") + a + b + c\n\nvar a, b, c = lg(\"var main.a\"), x, lg(\"var main.c\") + y\n\n" + x, []string{"a", "b", "c", "x", "y", "z"}},
+		{"expr-first", "var z = lg(\"var main.z\") + a + b\n\nvar a, b = x + 0, y\n\n" + x, []string{"a", "b", "x", "y", "z"}},
+		{"grouped", "var (\n\ta, b = x, y\n\tc    = lg(\"var main.c\") + a\n)\n\n" + x, []string{"a", "b", "c", "x", "y"}},
+		{"chain", "var a, b = x, w\n\nvar x = lg(\"var main.x\") + w\n\nvar w = lg(\"var main.w\")\n\n", []string{"a", "b", "x", "w"}},
+		{"single-bare", "var z = lg(\"var main.z\") + a\n\nvar a = x\n\n" + x, []string{"a", "x", "y", "z"}},
+	}
+	for _, m := range mv {
+		for inits := 0; inits <= 1; inits++ {
+			var b strings.Builder
+			b.WriteString("package main\n\n" + imph + helpers + m.body)
+			for k := 0; k < inits; k++ {
+				fmt.Fprintf(&b, "func init() { Show(\"init main.a.go#%d\") }\n\n", k)
+			}
+			b.WriteString("func main() {\n\tShow(\"main\")\n\tShow(\"vals\", " + strings.Join(m.vals, ", ") + ")\n}\n")
+			ps = append(ps, prog{Name: fmt.Sprintf("MV %s inits=%d", m.name, inits), Files: map[string]string{"main/a.go": b.String()}, Entry: "eval", Vals: m.vals})
+		}
+	}
 	// F: two files; 3 variables, uniform kinds, every assignment of variables to files, 0-2 init functions per file
 	for _, deps := range dags(3) {
 		for _, kd := range []string{"direct", "func"} {
@@ -490,7 +585,12 @@ func main() {
 			r.HarnessError("%s: %s", f.P.Name, f.Err)
 			continue
 		}
-		r.Fail(report.Failure{Key: keyOf(f.P.Name, failing), What: fmt.Sprintf("%s: model=%q interpreter=%q err=%s", f.P.Name, f.Want, f.Got, f.Err), Case: f})
+		key := keyOf(f.P.Name, failing)
+		if strings.HasPrefix(f.P.Name, "MV ") {
+			// the same program can fail in two ways: only the order of the log differs, or the final values differ
+			key = f.P.Name + " | " + mvSymptom(f.Want, f.Got, f.Err)
+		}
+		r.Fail(report.Failure{Key: key, What: fmt.Sprintf("%s: model=%q interpreter=%q err=%s", f.P.Name, f.Want, f.Got, f.Err), Case: f})
 	}
 	for _, a := range res.Abnormal {
 		r.Fail(report.Failure{Key: ps[a.Idx].Name + "|" + a.Kind, What: ps[a.Idx].Name + ": interpreter " + a.Kind, Case: fail{P: ps[a.Idx], Err: a.Kind}})
@@ -502,7 +602,7 @@ func main() {
 	r.Set("traces_validated_against_impl", n)
 	r.Set("distinct_nontrivial", len(res.Sets["orders"]))
 	r.Set("exhaustive", true)
-	r.Set("rule", "V: every DAG over n<=3 package-level variables with every assignment of 4 edge kinds (direct, through one function, through two functions, through a method), n=4 with a uniform kind; M: multi-variable / blank / grouped / closure / function-value forms x 0-2 init functions; F: 3 variables over two files, every file assignment, init functions per file, EvalPath on the directory; P: single import, chain, diamond, fan-in, blank import, directory entry. states = distinct expected initialisation logs; transitions = initialisers/inits/main logged")
+	r.Set("rule", "V: every DAG over n<=3 package-level variables with every assignment of 4 edge kinds (direct, through one function, through two functions, through a method), n=4 with a uniform kind; M: multi-variable / blank / grouped / closure / function-value forms x 0-2 init functions; MV: n:n multi-value declarations with bare identifiers of later variables in every position (values of all variables shown by main, model evaluates them in InitOrder); F: 3 variables over two files, every file assignment, init functions per file, EvalPath on the directory; P: single import, chain, diamond, fan-in, blank import, directory entry. states = distinct expected initialisation logs; transitions = initialisers/inits/main logged")
 	r.Assumptions = []string{"go/types Info.InitOrder + spec rules (inits in file-name then source order, imports first, each package once) are the reference model", "every initialiser logs exactly once; programs are DAGs (initialisation cycles are compile errors, not C15's business)"}
 	for _, i := range []int{0, len(ps) / 2, len(ps) - 1} {
 		r.Sample(ps[i])
@@ -512,6 +612,20 @@ func main() {
 
 // keyOf attributes a V-family failure to a failing graph with one edge removed or with fewer variables
 // when there is one; other families are their own keys.
+func mvSymptom(want, got, err string) string {
+	last := func(s string) string {
+		l := strings.Split(strings.TrimSpace(s), "\n")
+		return l[len(l)-1]
+	}
+	switch {
+	case err != "":
+		return "error"
+	case last(want) != last(got):
+		return "final values differ"
+	}
+	return "order of the log differs, values agree"
+}
+
 func keyOf(name string, failing map[string]bool) string {
 	if strings.HasPrefix(name, "F ") {
 		// the same graph in a single file
@@ -520,7 +634,7 @@ func keyOf(name string, failing map[string]bool) string {
 		}
 		return name
 	}
-	if strings.HasPrefix(name, "M ") {
+	if strings.HasPrefix(name, "M ") || strings.HasPrefix(name, "MV ") {
 		if cand := strings.Fields(name)[0] + " " + strings.Fields(name)[1] + " inits=0"; failing[cand] {
 			return cand
 		}
